@@ -44,11 +44,21 @@ def names(rng, quick):
 
 
 class FixedClock(datetime.datetime):
+    """controlled clock of the adapter module; it ADVANCES with every reading, so one adapter object signs requests on both sides of a
+    date change when the session starts just before midnight UTC (date, scope and signing key must all follow)"""
     now_value = datetime.datetime(2031, 12, 31, 23, 59, 59)
+    step = datetime.timedelta(milliseconds=370)
 
     @classmethod
     def utcnow(cls):
-        return cls.now_value
+        v = cls.now_value
+        cls.now_value = v + cls.step
+        return v
+
+    @classmethod
+    def now(cls, tz=None):
+        v = cls.utcnow()
+        return v.replace(tzinfo=datetime.timezone.utc).astimezone(tz) if tz is not None else v
 
 
 def events_from(fake, intents):
